@@ -6,7 +6,7 @@ import leafgen as lg
 from core import cq, fr, fl, Raw, N, Some, dy
 
 ID = 'C09'
-GEN = ['kernels']
+GEN = ['kernels', 'thermal']
 PROPS = 'Props/C09.v'
 MODEL_VO = ['Model/Dev.v']
 CASE_TYPE = 'c09case'
@@ -101,7 +101,28 @@ def gen_case(rng, i):
 
 def gen_cases(rng, tier):
   n = {'quick': 400, 'thorough': 8000, 'search': 200}[tier]
-  return [gen_case(rng, i) for i in range(n)]
+  out = []
+  for i in range(n):
+    c = gen_case(rng, i)
+    # the FORM in which the flow is handed over: float ndarray, Python list of floats, whole-number flows as an integer ndarray or as
+    # a list of Python ints (iterative callers pass float arrays; scenario files and users pass anything numpy accepts)
+    c['rform'] = ['nd', 'nd', 'list', 'int', 'nd', 'intlist', 'nd', 'int'][(i // 2) % 8]
+    if c['rform'] in ('int', 'intlist'):
+      c['r'] = [F(0) if v == 0 else F(int(v) if int(v) != 0 else (1 if v > 0 else -1)) for v in c['r']]
+    out.append(c)
+  return out
+
+
+def flow_obj(c):
+  r = fl(c['r'])
+  f = c.get('rform', 'nd')
+  if f == 'int':
+    return np.array([int(v) for v in c['r']], dtype=int)
+  if f == 'intlist':
+    return [int(v) for v in c['r']]
+  if f == 'list':
+    return list(r)
+  return np.array(r)
 
 
 def build(c):
@@ -139,6 +160,9 @@ def observe(c):
   from device_kit import utils
   d = build(c)
   r = np.array(fl(c['r']))
+  rf = flow_obj(c)                 # what charge_at / r2t / soc receive; the constraint functions get what a solver passes (float ndarray)
+  if c['kind'] == 'T' and not isinstance(rf, np.ndarray):
+    rf = np.array(rf)              # TDevice.r2t calls r.reshape: ndarray only (integer dtype kept)
   n = c['n']
   if c['kind'] == 'S':
     s, e = float(c['sustainment']), float(c['efficiency'])
@@ -151,11 +175,11 @@ def observe(c):
     kinds = [cons[k + j]['type'] for j in range(2 * n)] + [cons[-1]['type']]
     if any(t != 'ineq' for t in kinds):
       raise AssertionError('state-of-charge constraint is not an inequality: %s' % kinds)
-    return {'soc': fr(utils.soc(r, s, e)), 'base': fr(utils.base_soc(float(c['start']) * cap, s, n)),
-            'mat': fr(np.array(utils.sustainment_matrix(s, n))), 'charge': fr(np.array(d.charge_at(r))),
+    return {'soc': fr(utils.soc(rf, s, e)), 'base': fr(utils.base_soc(float(c['start']) * cap, s, n)),
+            'mat': fr(np.array(utils.sustainment_matrix(s, n))), 'charge': fr(np.array(d.charge_at(rf))),
             'c0': fr(c0), 'c1': fr(c1), 'last': fr(last)}
   s, e = float(c['sustainment']), float(c['efficiency'])
-  return {'tbase': fr(np.array(d.t_base)), 'r2t': fr(np.array(d.r2t(r))), 'soc': fr(utils.soc(r, s, e))}
+  return {'tbase': fr(np.array(d.t_base)), 'r2t': fr(np.array(d.r2t(rf))), 'soc': fr(utils.soc(flow_obj(c), s, e))}
 
 
 def coq_case(c, o):
@@ -177,7 +201,7 @@ def nontrivial(c, o):
 
 def classify(c, o):
   r = c['r']
-  ks = ['kind:' + c['kind'], 'n:%d' % c['n'], 'sustainment:%s' % c['sustainment'], 'efficiency:%s' % c['efficiency']]
+  ks = ['kind:' + c['kind'], 'flowform:' + c.get('rform', 'nd'), 'n:%d' % c['n'], 'sustainment:%s' % c['sustainment'], 'efficiency:%s' % c['efficiency']]
   if any(v > 0 for v in r) and any(v < 0 for v in r):
     ks.append('flow:mixed-sign')
   if any(v == 0 for v in r):
